@@ -93,6 +93,164 @@ theorem C02_mem_iff (ts : List Nat) (x : Nat) :
         rw [h1.1]
         exact (mem_go_iff p x r).mpr ⟨pre, post, h1.2, h3 p (by simp), fun y hy => h3 y (by simp [hy])⟩
 
+/-! ### every reported change carries a valid time index (on the waveform a history denotes) -/
+
+/-- invariant of the abstract interpreter: the table length is tracked exactly and every recorded index is below it -/
+def SpecInv (s : St) : Prop :=
+  s.ttLen = s.ttRev.length ∧ ∀ l ∈ s.changesRev.toList, ∀ p ∈ l, p.1 < s.ttLen
+
+theorem record_inv (s s' : St) (id : Nat) (v : Value) (hi : SpecInv s) (hne : s.ttRev ≠ [])
+    (h : record s id v = some s') : SpecInv s' ∧ s'.ttRev = s.ttRev := by
+  unfold record at h
+  split at h
+  · rename_i hid
+    cases h
+    refine ⟨⟨hi.1, ?_⟩, rfl⟩
+    intro l hl p hp
+    simp only at hl
+    rw [Array.toList_set] at hl
+    have hpos : 0 < s.ttLen := by
+      rw [hi.1]; cases hr : s.ttRev with
+      | nil => exact absurd hr hne
+      | cons a r => simp
+    rcases List.mem_or_eq_of_mem_set hl with hl | hl
+    · exact hi.2 l hl p hp
+    · subst hl
+      rcases List.mem_cons.mp hp with rfl | hp
+      · simp; omega
+      · exact hi.2 _ (by simp [Array.getElem_mem_toList]) p hp
+  · cases h
+
+theorem step_inv (types : Array SigType) (s s' : St) (op : Op) (hi : SpecInv s) (h : step types s op = some s') :
+    SpecInv s' := by
+  have hrec : ∀ id v, ¬ (s.needNewMax ∨ s.ttRev.isEmpty = true) → (if s.skipping then some s else record s id v) = some s' → SpecInv s' := by
+    intro id v hg hr
+    split at hr
+    · cases hr; exact hi
+    · have hne : s.ttRev ≠ [] := by
+        intro he; apply hg; right; simp [he]
+      exact (record_inv s s' id v hi hne hr).1
+  cases op with
+  | time t =>
+    simp only [step] at h
+    split at h
+    · cases h; refine ⟨by simp, ?_⟩
+      intro l hl p hp
+      have := hi.2 l hl p hp
+      rename_i hr
+      rw [hi.1, hr] at this; simp at this
+    · rename_i m r hr
+      split at h
+      · cases h
+        refine ⟨by simp [hi.1], ?_⟩
+        intro l hl p hp
+        have := hi.2 l hl p hp
+        simp; omega
+      · split at h
+        · cases h
+        · split at h
+          · cases h; exact ⟨hi.1, hi.2⟩
+          · cases h; exact ⟨hi.1, hi.2⟩
+  | split =>
+    simp only [step] at h
+    split at h
+    · cases h
+    · cases h; exact ⟨hi.1, hi.2⟩
+  | vcd id value realLe =>
+    simp only [step] at h
+    split at h
+    · cases h
+    · rename_i hg
+      split at h
+      · cases h
+      · split at h
+        · cases h
+        · exact hrec id _ hg h
+  | raw id st bytes =>
+    simp only [step] at h
+    split at h
+    · cases h
+    · rename_i hg
+      split at h
+      · cases h
+      · split at h
+        · cases h
+        · exact hrec id _ hg h
+  | real id le =>
+    simp only [step] at h
+    split at h
+    · cases h
+    · rename_i hg
+      split at h
+      · split at h
+        · exact hrec id _ hg h
+        · cases h
+      · cases h
+
+theorem canon_subset (l : List (Nat × Value)) : ∀ p ∈ canon l, p ∈ l := by
+  cases l with
+  | nil => intro p hp; simp [canon] at hp
+  | cons x r =>
+    intro p hp
+    simp only [canon] at hp
+    rcases List.mem_cons.mp hp with h | h
+    · simp [h]
+    · have : ∀ (prev : Value) (r : List (Nat × Value)), ∀ z ∈ canon.go prev r, z ∈ r := by
+        intro prev r
+        induction r generalizing prev with
+        | nil => intro z hz; simp [canon.go] at hz
+        | cons y r ih =>
+          intro z hz
+          simp only [canon.go] at hz
+          split at hz
+          · exact List.mem_cons_of_mem _ (ih prev z hz)
+          · rcases List.mem_cons.mp hz with h | h
+            · simp [h]
+            · exact List.mem_cons_of_mem _ (ih y.2 z h)
+      exact List.mem_cons_of_mem _ (this x.2 r p h)
+
+/-- **every change of the waveform a history denotes carries an index into its time table** -/
+theorem C02_indices_valid (types : List SigType) (ops : List Op) (tt : List Nat) (sigs : List (List (Nat × Value)))
+    (h : run types ops = some (tt, sigs)) : ∀ l ∈ sigs, ∀ p ∈ l, p.1 < tt.length := by
+  unfold run at h
+  simp only at h
+  have hfold : ∀ (ops : List Op) (s0 : St), SpecInv s0 →
+      ∀ s, ops.foldl (fun acc op => acc.bind (fun s => step types.toArray s op)) (some s0) = some s → SpecInv s := by
+    intro ops
+    induction ops with
+    | nil => intro s0 h0 s hs; simp at hs; subst hs; exact h0
+    | cons op r ih =>
+      intro s0 h0 s hs
+      simp only [List.foldl_cons, Option.bind_some] at hs
+      cases hst : step types.toArray s0 op with
+      | none =>
+        rw [hst] at hs
+        have : ∀ (r : List Op), r.foldl (fun acc op => acc.bind (fun s => step types.toArray s op)) (none : Option St) = none := by
+          intro r; induction r with
+          | nil => rfl
+          | cons a r ih => simpa using ih
+        rw [this] at hs; cases hs
+      | some s1 => rw [hst] at hs; exact ih s1 (step_inv _ _ _ _ h0 hst) s hs
+  split at h
+  · cases h
+  · rename_i s hs
+    split at h
+    · cases h
+    · cases h
+      have hinv := hfold ops _ (by
+        refine ⟨by simp, ?_⟩
+        intro l hl p hp
+        simp at hl
+        obtain ⟨_, _, rfl⟩ := hl
+        cases hp) s hs
+      intro l hl p hp
+      simp only [List.mem_map] at hl
+      obtain ⟨l0, hl0, rfl⟩ := hl
+      have hp' := canon_subset _ p hp
+      have := hinv.2 l0 hl0 p (by simpa using hp')
+      rw [hinv.1] at this
+      simpa using this
+
 /-- non-vacuity: a history with repeated and backwards timestamps is accepted by the encoder -/
 example : strictPrefixMax [5, 7, 7, 3, 7, 9] = [5, 7, 9] := by decide
 
